@@ -412,7 +412,9 @@ def run_locks():
             with L:                       # updater A: `with L: v.value += 1`, B scheduled in the middle
                 tmp = v.value
                 t.start()
-                t.join(0.4)               # B finishes here iff holding L does not exclude it
+                # B finishes here iff holding L does not exclude it (join returns as soon as it has; the long limit is
+                # only ever waited out when L does exclude B although its truth value is False, i.e. after a fix)
+                t.join(0.4 if bool(L) else 5.0)
                 rec['b_ran_inside_a'] = not t.is_alive()
                 v.value = tmp + 1
             t.join(10)
